@@ -37,6 +37,10 @@ pub struct ConcPlan {
     pub batch: Vec<Vec<BOp>>,
     pub sched: SchedPlan,
     pub skews_us: Vec<i64>,
+    /// HTTP only: all requests of the batch are handled by ONE worker as concurrent tasks that
+    /// interleave at the handler's await points (slow upload chunks), as on a real actix worker
+    #[serde(default)]
+    pub same_worker: bool,
 }
 
 pub fn gen_plan(seed: u64, backend: Backend, entry: Entry, thorough: bool) -> ConcPlan {
@@ -136,6 +140,7 @@ pub fn gen_plan(seed: u64, backend: Backend, entry: Entry, thorough: bool) -> Co
             replay: None,
         },
         skews_us: (0..3).map(|_| if r.chance(30, 100) { r.range(-5_000_000, 5_000_000) } else { 0 }).collect(),
+        same_worker: entry == Entry::Http && r.chance(22, 100),
     }
 }
 
@@ -271,7 +276,56 @@ pub fn exec(plan: &ConcPlan) -> RunOut {
     }
     let done: Mutex<Vec<Done>> = Mutex::new(Vec::new());
     let t_batch = sched::now_us();
-    let so = sched::run_threads(n_threads, &plan.sched, 20_000, |tid| {
+    let same_worker = plan.same_worker && http;
+    if same_worker {
+        out.bump("cfg.same_worker_async_interleaving");
+    }
+    let so = if same_worker {
+        // one worker thread, one task per "client connection"; tasks interleave wherever a body
+        // chunk is not ready yet
+        sched::run_threads(1, &plan.sched, 20_000, |_| {
+            let inst = &insts[0];
+            let app = HttpApp::new(&inst.web);
+            let appr = &app;
+            let doner = &done;
+            let mut polls = 0u64;
+            crate::http::block_on(async {
+                use std::future::Future;
+                let mut tasks: Vec<std::pin::Pin<Box<dyn Future<Output = ()> + '_>>> = Vec::new();
+                for (tid, list) in reqs.iter().enumerate() {
+                    let seed = plan.seed;
+                    tasks.push(Box::pin(async move {
+                        for (k, (req, ch, _)) in list.iter().enumerate() {
+                            let mut w = match crate::http::wire_for(req, ch) {
+                                Some(w) => w,
+                                None => continue,
+                            };
+                            w.pending_seed = Some(crate::rng::mix(&[seed, tid as u64, k as u64, 0xA51C]));
+                            let inv = sched::stamp();
+                            let t_inv = sched::now_us() + inst.skew_us;
+                            crate::world::SKEW_US.with(|s| s.set(inst.skew_us));
+                            let raw = appr.start(w).await;
+                            let (resp, _enc) = crate::http::decode(req, &raw);
+                            let t_ret = sched::now_us() + inst.skew_us;
+                            let ret = sched::stamp();
+                            doner.lock().unwrap().push(Done { tid, req: req.clone(), resp, inv, ret, t_inv, t_ret });
+                        }
+                    }));
+                }
+                let waker = futures::task::noop_waker();
+                let mut cx = std::task::Context::from_waker(&waker);
+                let mut rng = Rng::stream(plan.sched.seed, "async-poll");
+                while !tasks.is_empty() && polls < 200_000 {
+                    polls += 1;
+                    let i = rng.below(tasks.len() as u64) as usize;
+                    if tasks[i].as_mut().poll(&mut cx).is_ready() {
+                        drop(tasks.remove(i));
+                    }
+                }
+            });
+        })
+    } else {
+        sched::run_threads(n_threads, &plan.sched, 20_000, |tid| {
         let mut apps: Vec<Option<HttpApp>> = (0..insts.len()).map(|_| None).collect();
         for (req, ch, ii) in &reqs[tid] {
             let inst = &insts[*ii];
@@ -294,7 +348,8 @@ pub fn exec(plan: &ConcPlan) -> RunOut {
             let ret = sched::stamp();
             done.lock().unwrap().push(Done { tid, req: req.clone(), resp, inv, ret, t_inv, t_ret });
         }
-    });
+        })
+    };
     let mut done = done.into_inner().unwrap();
     done.sort_by_key(|d| d.inv);
     // evidence: interleaving identity and reach probes
@@ -315,6 +370,9 @@ pub fn exec(plan: &ConcPlan) -> RunOut {
     }
     if so.stalls_fired > 0 {
         out.add("fault.stall", so.stalls_fired as u64);
+    }
+    if so.os_blocked > 0 {
+        out.add("probe.thread_blocked_on_unknown_os_primitive", so.os_blocked);
     }
     let overlapped = done.iter().any(|a| done.iter().any(|b| a.tid != b.tid && a.inv < b.ret && b.inv < a.ret));
     if overlapped {
@@ -558,6 +616,11 @@ pub fn shrink(plan: &ConcPlan) -> Vec<ConcPlan> {
     if plan.page_size.is_some() {
         let mut p = plan.clone();
         p.page_size = None;
+        c.push(p);
+    }
+    if plan.same_worker {
+        let mut p = plan.clone();
+        p.same_worker = false;
         c.push(p);
     }
     c
